@@ -37,7 +37,11 @@ def run_job(job, w):
         try:
             r = harness.run_scenario(wfgen.to_flowir(wf), script, loc, perturb_seed=sc["pseed"],
                                      jitter_p=sc["jitter_p"], jitter_max=sc["jitter_max"], storm=sc["storm"],
-                                     watchdog_s=job.get("watchdog_s", 90.0), continue_on_error=False)
+                                     watchdog_s=job.get("watchdog_s", 90.0), continue_on_error=False,
+                                     # half of the runs with an unrecoverable exit are observed for 32 virtual
+                                     # seconds past the stage loop (post-mortem checks still in flight complete)
+                                     linger_v=32.0 if (sc["pseed"] % 2 == 0 and
+                                                       oracles.c02_expected(nodes, script)["unrecoverable"]) else 0.0)
         finally:
             shutil.rmtree(loc, ignore_errors=True)
         w.evaluated()
@@ -68,6 +72,9 @@ def run_job(job, w):
                                 finding_key="C02:running-observer-of-subject-that-shuts-down-ends-finished")
                 viol, _ = oracles.c02_judge(nodes, script, r, wf["stages"], override=ov)
                 w.count("runs_rejudged_with_known_observer_states")
+        v1, c1 = oracles.single_final_state(r)
+        viol = list(viol) + v1
+        cnt = dict(cnt, **c1)
         for k, v in cnt.items():
             w.count(k, v)
         w.count("terminated_runs")
@@ -136,8 +143,34 @@ def make_pairs(n, salt, thorough):
     for i in range(n):
         pair = scenarios.gen_pair(rng, max_stages=3, max_comps=6, p_repeat=rng.choice([0.0, 0.15, 0.3]))
         pair["id"] = "%s-%d" % (salt, i)
+        if i % 5 == 4:
+            multi_failure(rng, pair)
         out.append(pair)
     return out
+
+
+def multi_failure(rng, pair):
+    """Several components of ONE stage end badly within the same 25 s window: the post-mortem analysis of one
+    unrecoverable exit (Controller._restartComponent sleeps 25 s) overlaps the post-mortem checks, restarts and
+    shutdowns of its neighbours, so notifications about one component arrive while another is being stopped."""
+    from rt import wfgen
+    nodes = wfgen.expand(pair["wf"])
+    st = rng.choice(sorted({nd["stage"] for nd in nodes.values()}))
+    comps = pair["script"]["components"]
+    dur = lambda: rng.choice([0.5, 1.0, 2.0, 3.0, 5.0, 8.0])
+    for ref, nd in nodes.items():
+        if nd["stage"] != st or nd.get("repeat") or rng.random() < 0.25:
+            continue
+        kind = rng.choice(["fail", "fail", "fail", "re", "re4", "sf6"])
+        if kind == "fail":
+            comps[ref] = [{"reason": rng.choice(["KnownIssue", "SystemIssue", "UnknownIssue"]), "duration": dur()}]
+        elif kind == "re":
+            comps[ref] = [{"reason": "ResourceExhausted", "duration": dur()}, {"reason": "Success", "duration": dur()}]
+        elif kind == "re4":
+            comps[ref] = [{"reason": "ResourceExhausted", "duration": rng.choice([0.5, 1.0])} for _ in range(4)]
+        else:
+            comps[ref] = [{"launch_error": "JobLaunchError"} for _ in range(6)]
+    pair["multi_failure_stage"] = st
 
 
 def structured_pairs(thorough):
